@@ -89,8 +89,17 @@ macro_rules! assert_vfs_copyfile {
             panic_msg!("assert_vfs_copyfile!", "is not a file", &src);
         } else {
             match $vfs.copy(&src, &dst) {
-                Ok(_) => match $vfs.read_all(&src) {
-                    Ok(x) => match $vfs.read_all(&dst) {
+                // compare the bytes (the files need not be valid UTF-8)
+                Ok(_) => match $vfs.read(&src).and_then(|mut f| {
+                    let mut buf = vec![];
+                    std::io::Read::read_to_end(&mut f, &mut buf)?;
+                    Ok(buf)
+                }) {
+                    Ok(x) => match $vfs.read(&dst).and_then(|mut f| {
+                        let mut buf = vec![];
+                        std::io::Read::read_to_end(&mut f, &mut buf)?;
+                        Ok(buf)
+                    }) {
                         Ok(y) => {
                             if &x != &y {
                                 panic_compare_msg!("assert_vfs_copyfile!", "src data doesn't match dst", &x, &y);
